@@ -65,7 +65,8 @@ func Main(suites map[string]*Suite) {
 	defer out.Flush()
 	switch cmd {
 	case "gen":
-		s.Gen(&GenCtx{W: out, R: NewRng(*seed), Tier: *tier, Part: *part, Parts: *parts})
+		// every part of a split run gets its own random stream
+		s.Gen(&GenCtx{W: out, R: NewRng(*seed + uint64(*part)*0x51ED270B), Tier: *tier, Part: *part, Parts: *parts})
 	case "run":
 		sc := bufio.NewScanner(os.Stdin)
 		sc.Buffer(make([]byte, 1<<20), 1<<26)
